@@ -21,7 +21,7 @@ MIX = {
     "C06": ["subscriber", "subscriber", "subscriber", "general", "persistent"],
     "C07": ["subreq", "subreq", "subreq", "general", "silence", "persistent", "clean", "resume"],
     "C08": ["silence", "silence", "silence", "publisher", "subreq", "qos2", "general", "resume"],
-    "C09": ["qos2", "qos2", "qos2", "persistent", "silence", "publisher", "resume"],
+    "C09": ["qos2", "qos2", "qos2", "persistent", "silence", "publisher", "resume", "ids"],
     "C10": ["window", "window", "window", "publisher", "persistent", "general", "clean", "resume"],
     "C11": ["clean", "clean", "clean", "closing", "general", "keepalive", "hostile", "resume"],
     "C12": ["persistent", "persistent", "persistent", "qos2", "general", "resume"],
